@@ -156,7 +156,16 @@ class Base:
 
     def describe(self, ex, outcome, detail):
         if outcome == "ok":
-            return ("ok", detail, ex.obligations)
+            # a seed-chosen sample of passing paths is rendered for the engine-vs-native comparison (DESIGN 2.4)
+            text = None
+            import zlib
+            h = zlib.crc32(repr((list(ex.decisions), self.label(), self.fam.seed)).encode()) % 40
+            if h == 0 and detail not in ("preamble-diagnosed",):
+                try:
+                    text = self.render(ex.model() or {})
+                except Exception:
+                    text = None
+            return ("ok", detail, ex.obligations, text)
         model = ex.model() or {}
         text = self.render(model)
         return ("fail", outcome, self.site(outcome, detail), text, self.label(), detail["msg"])
@@ -264,6 +273,8 @@ def collector(res, label_of=str):
         for r in recs:
             if r[0] == "ok":
                 counts[r[1]] += 1; res.obligations += r[2]
+                if len(r) > 3 and r[3] and len(res.extra.setdefault("_ok_samples", [])) < 400:
+                    res.extra["_ok_samples"].append(r[3])
             else:
                 d = fails.setdefault(r[2], {"count": 0, "ex": []})
                 d["count"] += 1
@@ -272,8 +283,28 @@ def collector(res, label_of=str):
     return fails, counts, on_result
 
 
+def validate_samples(ctx, res, limit=24):
+    """engine == native on a sample of PASSING paths' concrete programs (graph, diagnostics): keeps the models honest"""
+    import random
+    samples = res.extra.pop("_ok_samples", [])
+    rnd = random.Random(ctx.seed)
+    rnd.shuffle(samples)
+    bad = 0
+    for text in samples[:limit]:
+        diff = engine_agrees_with_native(text)
+        if diff is None:
+            res.validated += 1
+        elif diff.startswith("native run failed") or diff.startswith("the text has lexical"):
+            continue
+        else:
+            bad += 1
+            res.inconclusive.append(f"engine and native pipeline differ on a passing path's program `{text}`: {diff}")
+    res.extra["engine_native_samples"] = {"compared": res.validated, "differ": bad}
+
+
 def triage(ctx, res, pid, fails, panic_is="skip"):
     """panic_is: 'skip' (C03's subject: recorded, not judged here) or 'violation'"""
+    validate_samples(ctx, res)
     known_by_id = {k["id"]: k for k in ctx.known}
     seen = collections.Counter()
     for site, info in fails.items():
